@@ -102,6 +102,8 @@ def laneOp (ws : List String) : Option (List Ev) :=
   | ["appendbad"] => some [.appendBad]
   | ["apply"] => some applyRound            -- one whole localReplicator.Replica
   | ["begin"] => some [.applyBegin]
+  | ["getfail"] => some [.applyGetFail]   -- one partition.replica iteration whose GetMessage fails
+  | ["norows"] => some [.applyNoRows]     -- one whole Replica of an entry that decompresses but yields no rows
   | ["take"] => some [.applyTake]
   | ["acquire"] => some [.applyAcquire]
   | ["write"] => some [.applyWrite]
